@@ -53,8 +53,11 @@ def _correspondence_once(ctx, rep=0):
     for j in jobs:
         tcorr.compare(ctx, j, 'C12', observables=('out', 'ld'))
     for (e, B, inverse, i, pw, p1, yw, y1, lw, l1, t, xi, ci) in side:
-        ok = torch.allclose(pw, p1, rtol=1e-9, atol=1e-11) and torch.allclose(yw, y1, rtol=1e-8, atol=1e-10, equal_nan=True) \
-            and torch.allclose(lw, l1, rtol=1e-8, atol=1e-9, equal_nan=True)
+        # conditioning: as in tcorr.compare, a row with |log-det| = L moves by ~ulp * exp(L) under a one-ulp change of its parameters
+        # (torch's vectorised kernels differ in the last ulp between batch lengths)
+        kap = float(1e-15 * torch.exp(lw.abs().clamp(max=60)).max()) if torch.isfinite(lw).all() else 0.0
+        ok = torch.allclose(pw, p1, rtol=1e-9, atol=1e-11) and torch.allclose(yw, y1, rtol=1e-8, atol=1e-10 + kap, equal_nan=True) \
+            and torch.allclose(lw, l1, rtol=1e-8, atol=1e-9 + kap, equal_nan=True)
         br = 'row-vs-batch'
         if not ok and inverse and torch.allclose(pw, p1, rtol=1e-9, atol=1e-11):
             # an ill-conditioned inverse (a nearly flat bin) amplifies the last-ulp differences between the vectorised and the
